@@ -188,7 +188,7 @@ def _lib_functional(rng):
                 "api": side.choice(["raw", "common", "common"]), "force_cyclic": False}
     d = rng.choice(["Normal(0, 1)", "Uniform(0, 1)", "Normal(1, 1/4)", "Uniform(-1, 1)"])
     fn = rng.choice(["Cos", "Sin", "Exp"])
-    init = ["x = 0", f"s = {rng.choice([0, 1, 2])}", "y = 0"]
+    init = ["x = 0", f"s = {rng.choice([0, 1, 2, 3, 2])}", "y = 0"]
     if rng.random() < 0.7:
         init.append(f"u = {d}")         # the argument also has an initial draw, before or after the function variable's initial value
     rng.shuffle(init)
@@ -201,6 +201,9 @@ def _lib_functional(rng):
     text = "\n".join(lines + body + ["end"]) + "\n"
     pool = ["s", "x", "x", "y", "s**2", "x*s", "u", "u*s"]
     goals = [{"monom": g, "kind": "raw"} for g in dict.fromkeys(rng.sample(pool, rng.choice([2, 3, 3])))]
+    if rng.random() < 0.5:
+        # the function variable first, then its consumers: the second goal finds the first one's recurrences cached
+        goals = [{"monom": g, "kind": "raw"} for g in dict.fromkeys(["s"] + rng.sample(["x", "y", "x", "x*s"], 2))]
     return {"kind": "lib", "pid": "fun:" + hashlib.sha256(text.encode()).hexdigest()[:10], "program": {"text": text}, "goals": goals,
             "options": dict(rng.choice([{}, {}, {"exact_func_moments": True}])), "api": rng.choice(["raw", "common", "common"]), "force_cyclic": False}
 
